@@ -1784,5 +1784,5 @@ TABLE["C12"] += [
 TABLE["C10"] += [
     B("static-block-returns-early-without-static-methods", {"T17"},
       (MW, "        for static_method in static_methods:\n            format_name = list(static_method[0].name)", "        if not static_methods:\n            return method_text\n\n        for static_method in static_methods:\n            format_name = list(static_method[0].name)")),
-    N("namespace-registered-only-if-already-filled", (MW,      # nothing is appended to the list after this point on the pinned tree: same files "        if inner_namespace:\n            self.content.append(inner_namespace_scope)", "        if inner_namespace and inner_namespace_scope:\n            self.content.append(inner_namespace_scope)")),
+    N("namespace-registered-only-if-already-filled", (MW, "        if inner_namespace:\n            self.content.append(inner_namespace_scope)", "        if inner_namespace and inner_namespace_scope:\n            self.content.append(inner_namespace_scope)")),
 ]
